@@ -7,10 +7,11 @@ is a byte sequence; here a `List Char` whose characters are byte values).
 ASCII, and no byte ≥ 0x80 (valid multi-byte rune or `RuneError`) satisfies it,
 so the byte positions it finds are the ones found here.
 
-`ColumnNameToNumber` accumulates in Go's 64-bit `int` with no guard inside the
-loop: `colRaw` is the exact sum and `wrap64` is applied where Go's value is
-observed (ring homomorphism `Z → Z/2^64`; validated by the correspondence on
-14..70-letter names).
+`ColumnNameToNumber` walks the name from its last letter, accumulating
+`col += val * multi` in Go's 64-bit `int` and checking the limit after every
+letter; `colLoop` is that loop over exact naturals, and `colLoop_small`
+(Lemmas/Ref3) shows no value it computes can reach 2^63, so the exact model is
+the 64-bit one (validated by the correspondence on 14..70-letter names).
 -/
 import XlModel.Basic
 import XlModel.Generated.Facts
@@ -46,14 +47,29 @@ def colRawAux : Nat → List Char → Option Nat
 
 def colRaw (cs : List Char) : Option Nat := colRawAux 0 cs
 
+/-- little-endian value of a (reversed) column name: what the loop of
+`ColumnNameToNumber` accumulates when it walks the name from its last letter -/
+def leVal : List Char → Nat
+  | [] => 0
+  | c :: cs => letterVal c + 26 * leVal cs
+
+/-- the loop of `ColumnNameToNumber` over the reversed name: `col += val * multi`,
+limit check after every letter (so neither `col` nor `multi` can wrap: see
+`colLoop_small`), `multi *= 26`. -/
+def colLoop : Nat → Nat → List Char → Except Err Nat
+  | col, _, [] => .ok col
+  | col, multi, c :: cs =>
+    if isLetter c then
+      if col + letterVal c * multi > Facts.MaxColumns then .error .colNumber
+      else colLoop (col + letterVal c * multi) (multi * 26) cs
+    else .error .colName
+
 /-- `ColumnNameToNumber` -/
 def columnNameToNumber (name : List Char) : Except Err Int :=
   if name.isEmpty then .error .colName else
-  match colRaw name with
-  | none => .error .colName
-  | some v =>
-    let w := wrap64 (v : Int)
-    if w > (Facts.MaxColumns : Int) then .error .colNumber else .ok w
+  match colLoop 0 1 name.reverse with
+  | .error e => .error e
+  | .ok v => .ok (v : Int)
 
 /-- the digit loop of `ColumnNumberToName` -/
 def numToName : Nat → List Char
@@ -111,16 +127,35 @@ def lastIdx (p : Char → Bool) : List Char → Option Nat
     | some i => some (i + 1)
     | none => if p c then some 0 else none
 
-/-- `SplitCellName` -/
+/-- `strings.TrimPrefix(s, "$")`: strip one optional leading `$` -/
+def dropDollar : List Char → List Char
+  | c :: cs => if isDollar c then cs else c :: cs
+  | [] => []
+
+/-- `strings.TrimSuffix(s, "$")` -/
+def trimSuffixDollar (s : List Char) : List Char := (dropDollar s.reverse).reverse
+
+def isSign (c : Char) : Bool := c.toNat == 43 || c.toNat == 45
+
+def headSign : List Char → Bool
+  | c :: _ => isSign c
+  | [] => false
+
+/-- `SplitCellName`: the column part may carry one leading and one trailing `$`
+and no other, the row part must not start with a sign (`strconv.Atoi` would
+accept one). -/
 def splitCellName (cell : List Char) : Except Err (List Char × Int) :=
   if firstIdx isAlpha cell = some 0 then
     match lastIdx isAlpha cell with
     | some i =>
       if i + 1 < cell.length then
-        let col := (cell.take (i + 1)).filter (fun c => !isDollar c)
-        match atoi (cell.drop (i + 1)) with
-        | some row => if row > 0 then .ok (col, row) else .error .cellName
-        | none => .error .cellName
+        let col := trimSuffixDollar (dropDollar (cell.take (i + 1)))
+        let rowStr := cell.drop (i + 1)
+        if !col.isEmpty && !col.any isDollar && !headSign rowStr then
+          match atoi rowStr with
+          | some row => if row > 0 then .ok (col, row) else .error .cellName
+          | none => .error .cellName
+        else .error .cellName
       else .error .cellName
     | none => .error .cellName
   else .error .cellName
@@ -189,27 +224,35 @@ def coordinatesToRangeRef (q : Int × Int × Int × Int) (abs : Bool) : Except E
     | .error e => .error e
     | .ok b => .ok (a ++ [':'] ++ b)
 
-/-- The two lookup disciplines of cell.go. Setters (`prepareCell`) index the grid
-by the decoded coordinates; getters (`getCellStringFunc`) compare the
-upper-cased spelling with the stored canonical reference *as strings*. The
-getter therefore finds what the setter wrote iff the upper-cased spelling is
-the canonical name. `none` = the spelling is rejected (or decodes outside the
-grid, where the setter panics). -/
-def getterFinds (s : List Char) : Option Bool :=
-  let u := s.map toUpper
-  match cellNameToCoordinates u with
+/-- The lookup disciplines of cell.go. Setters (`prepareCell`) index the grid by
+the decoded coordinates and store the canonical reference
+`CoordinatesToCellName(CellNameToCoordinates(s))`. -/
+def setterRef (s : List Char) : Option (List Char) :=
+  match cellNameToCoordinates s with
   | .ok (c, r) =>
     match coordinatesToCellName c r false with
-    | .ok canon => some (u == canon)
+    | .ok canon => some canon
     | .error _ => none
   | .error _ => none
 
-/-! ### Spec: the strict A1 grammar `\$?[A-Za-z]+\$?[0-9]+` inside the grid -/
+/-- Getters (`getCellStringFunc`, `GetCellHyperLink`) upper-case the spelling
+(`mergeCellsParser`), decode it, re-encode the coordinates canonically and compare
+that with the stored reference. -/
+def getterRef (s : List Char) : Option (List Char) := setterRef (s.map toUpper)
 
-/-- strip one optional leading `$` -/
-def dropDollar : List Char → List Char
-  | c :: cs => if isDollar c then cs else c :: cs
-  | [] => []
+/-- what every API taking a cell name does first (`mergeCellsParser`, or a direct
+`CellNameToCoordinates` which is case-insensitive): ASCII upper-casing, decoding,
+canonical re-encoding. `none` = the API returns an error. -/
+def apiRef (s : List Char) : Option (List Char) := getterRef s
+
+/-- does a getter called with spelling `s` find what a setter called with `s`
+wrote?  `none` = the spelling is rejected by the setter or by the getter. -/
+def getterFinds (s : List Char) : Option Bool :=
+  match setterRef s, getterRef s with
+  | some a, some b => some (a == b)
+  | _, _ => none
+
+/-! ### Spec: the strict A1 grammar `\$?[A-Za-z]+\$?[0-9]+` inside the grid -/
 
 /-- strict parser: optional `$`, letters, optional `$`, digits (no sign), then
 range checks on the exact (unwrapped) values. Leading zeros in the row are
